@@ -10,7 +10,7 @@ use super::*;
 } // mod pre
 use pre::*;
 
-broadcast use {vstd::std_specs::iter::filter_postcondition, lemma_take_filter_index_is_filter, lemma_lits_contains};
+broadcast use {vstd::std_specs::iter::filter_postcondition, lemma_take_filter_index_is_filter, lemma_lits_contains, axiom_pathbuf_ref_as_path};
 
 // The two structs of src/config/mod.rs, taken from the source at generation time (the file itself cannot be
 // #[path]-included: serde derives).
@@ -44,6 +44,7 @@ pub open spec fn op_from_raw(r: RawV) -> CfgV {
     CfgV { exclude: r.exclude.filter(glob_valid_fn()), disabled: r.disabled.filter(valid_code_fn()),
            fixture_paths: r.fixture_paths, skip_plugins: r.skip_plugins }
 }
+pub open spec fn pyproject_pv(root: PV) -> PV { root + seq!["pyproject.toml"@] }
 pub open spec fn op_is_disabled(c: CfgV, code: Seq<char>) -> bool { c.disabled.contains(code) }
 
 /// a list holds exactly the codes of `valid_code` (whatever the order)
@@ -53,7 +54,45 @@ pub proof fn lemma_valid_codes(l: Seq<Seq<char>>, x: Seq<char>)
     ensures l.contains(x) == valid_code(x),
 {}
 
+/// the configuration Config::parse builds from a pyproject.toml text (toml + from_raw: abstract here)
+pub uninterp spec fn parse_cfg(content: Seq<char>) -> CfgV;
+pub open spec fn empty_cfg() -> CfgV { CfgV { exclude: Seq::empty(), disabled: Seq::empty(), fixture_paths: Seq::empty(), skip_plugins: Seq::empty() } }
+/// content of a file on disk (None if unreadable) and existence: file-system facts
+pub uninterp spec fn fs_read(p: PV) -> Option<Seq<char>>;
+#[verifier::external_type_specification] #[verifier::external_body] pub struct ExIoError(std::io::Error);
+#[verifier::allow(undeclared_external_trait)]
+pub assume_specification<P: AsRef<Path>>[ std::fs::read_to_string::<P> ](p: P) -> (r: Result<String, std::io::Error>)
+    ensures (match r { Ok(s) => Some(s@), Err(_) => None::<Seq<char>> }) == fs_read(as_path_view(p));
+pub mod cfg_ax {
+    use super::*;
+    pub broadcast axiom fn axiom_pathbuf_ref_as_path<'a>(p: &'a PathBuf)
+        ensures #[trigger] as_path_view::<&'a PathBuf>(p) == pbv(p);
+}
+pub use cfg_ax::*;
+
 impl Config {
+    // callee contracts assumed here: toml parsing is abstract; Default is the derived all-empty value
+    #[verifier::external_body]
+    fn parse(content: &str, path: &Path) -> (c: Self) ensures cfg_view(&c) == parse_cfg(content@)
+    { unimplemented!() }
+    #[verifier::external_body]
+    pub fn default() -> (c: Self) ensures cfg_view(&c) == empty_cfg()
+    { unimplemented!() }
+
+/*@ extract src/config/mod.rs load
+@tags C19
+@ret c
+@replace 1 `workspace_root.join("pyproject.toml")` => `Self::vp_join_pyproject(workspace_root)`
+@sig
+    // the configuration is a function of the file's text alone: defaults when the file is missing or unreadable,
+    // otherwise exactly what parse makes of the WHOLE text (no pre-filtering of the text)
+    ensures cfg_view(&c) == (if !fs_exists(pyproject_pv(pv(workspace_root))) { empty_cfg() } else {
+        match fs_read(pyproject_pv(pv(workspace_root))) { Some(t) => parse_cfg(t), None => empty_cfg() } }),
+@*/
+    #[verifier::external_body]
+    fn vp_join_pyproject(workspace_root: &Path) -> (r: PathBuf) ensures pbv(&r) == pyproject_pv(pv(workspace_root))
+    { workspace_root.join("pyproject.toml") }
+
 /*@ extract src/config/mod.rs from_raw
 @tags C19
 @ret c
